@@ -150,12 +150,77 @@ package graphql
 
 //@ func splitWorkUnit
 //@   requires unit != nil && len(unit.destinations) >= len(unit.sources)
+//@   assume allocated(unit.destinations) && allocated(unit.sources)    // heap closed under reachability
 //@   assigns nothing
 //@   ensures len(result) == len(unit.sources)
 //@   ensures forall i int :: { result[i] } 0 <= i && i < len(result) ==> ownUnit(result[i]) && srcOf(result[i], unit, i) && dstOf(result[i], unit, i) && restOf(result[i], unit)
 //@   loop 1 invariant -1 <= rangeindex && rangeindex < len(unit.sources) && len(workUnits) == rangeindex+1 && fresh(workUnits) && allocated(workUnits)
+//@   loop 1 invariant unit.destinations == old(unit.destinations) && unit.sources == old(unit.sources) && allocated(unit.destinations) && allocated(unit.sources)
 //@   loop 1 invariant forall i int :: { workUnits[i] } 0 <= i && i < len(workUnits) ==> ownUnit(workUnits[i])
 //@   loop 1 invariant forall i int :: { workUnits[i] } 0 <= i && i < len(workUnits) ==> srcOf(workUnits[i], unit, i)
 //@   loop 1 invariant forall i int :: { workUnits[i] } 0 <= i && i < len(workUnits) ==> dstOf(workUnits[i], unit, i)
 //@   loop 1 invariant forall i int :: { workUnits[i] } 0 <= i && i < len(workUnits) ==> restOf(workUnits[i], unit)
 //@   loop 1 decreases len(unit.sources) - rangeindex
+
+// Pairing obligations: every resolver call, Fill and Fail uses the source and the destination of the same index.
+// res[k] (ghost) is what the resolver returned for sources[k]; the result list handed on is aligned with it.
+//@ func executeNonExpensiveWorkUnit
+//@   requires unit != nil && unit.selection != nil && unit.field != nil && len(unit.destinations) >= len(unit.sources)
+//@   assume allocated(unit.destinations) && allocated(unit.sources)
+//@   keeps WorkUnit, []interface{}, []*outputNode
+//@   ghost res map[int]interface{}
+//@   call SafeExecuteResolver assert arg2 == unit.sources[idx] && arg1 == unit.field && arg3 == unit.selection.Args && arg4 == unit.selection.SelectionSet
+//@   call SafeExecuteResolver ghost res[idx] = ret0
+//@   call outputNode.Fail#1 assert arg0 == unit.destinations[idx]
+//@   call resolveBatch assert len(arg1) == len(unit.sources) && (forall k int :: 0 <= k && k < len(arg1) ==> arg1[k] == res[k]) && arg4 == unit.destinations && arg2 == unit.field.Type && arg3 == unit.selection.SelectionSet
+//@   loop 1 invariant -1 <= rangeindex && rangeindex < len(unit.sources) && len(results) == rangeindex+1 && fresh(results) && allocated(results)
+//@   loop 1 invariant forall k int :: 0 <= k && k < len(results) ==> results[k] == res[k]
+//@   loop 1 decreases len(unit.sources) - rangeindex
+
+//@ func executeNonBatchWorkUnit
+//@   requires unit != nil && unit.selection != nil && unit.field != nil
+//@   keeps WorkUnit
+//@   call SafeExecuteResolver assert arg2 == src && arg1 == unit.field && arg3 == unit.selection.Args && arg4 == unit.selection.SelectionSet
+//@   call outputNode.Fail assert arg0 == dest
+//@   call resolveBatch assert len(arg1) == 1 && len(arg4) == 1 && arg4[0] == dest && arg2 == unit.field.Type && arg3 == unit.selection.SelectionSet
+
+//@ func executeBatchWorkUnit
+//@   requires unit != nil && unit.selection != nil && unit.field != nil
+//@   keeps WorkUnit
+//@   call SafeExecuteBatchResolver assert arg1 == unit.field && arg2 == unit.sources && arg3 == unit.selection.Args && arg4 == unit.selection.SelectionSet
+//@   call resolveBatch assert arg4 == unit.destinations && arg2 == unit.field.Type && arg3 == unit.selection.SelectionSet
+
+// executeWorkUnit: batch iff the field is a batch field and the unit asked for it; otherwise non-expensive fields go
+// through the pooled path and expensive ones one source at a time, each with its own destination.
+//@ func executeWorkUnit
+//@   requires unit != nil && unit.field != nil && unit.selection != nil && len(unit.destinations) >= len(unit.sources)
+//@   assume allocated(unit.destinations) && allocated(unit.sources)
+//@   keeps WorkUnit, Field, []interface{}, []*outputNode
+//@   call executeBatchWorkUnit assert unit.field.Batch && unit.useBatch && arg0 == unit
+//@   call executeNonExpensiveWorkUnit assert !(unit.field.Batch && unit.useBatch) && !unit.field.Expensive && arg0 == unit
+//@   call executeNonBatchWorkUnitWithCaching assert !(unit.field.Batch && unit.useBatch) && unit.field.Expensive && arg0 == unit.sources[idx] && arg1 == unit.destinations[idx] && arg2 == unit
+
+//@ func resolveScalarBatch
+//@   requires typ != nil && len(destinations) >= len(sources)
+//@   keeps []interface{}, []*outputNode, Scalar
+//@   ghost filled map[int]bool
+//@   call unwrap assert arg0 == sources[i]
+//@   call outputNode.Fill assert arg0 == destinations[i]
+//@   call outputNode.Fill ghost filled[i] = true
+//@   ensures err == nil ==> forall k int :: 0 <= k && k < len(sources) ==> filled[k]
+//@   loop 1 invariant -1 <= rangeindex && rangeindex < len(sources)
+//@   loop 1 invariant forall k int :: 0 <= k && k <= rangeindex ==> filled[k]
+//@   loop 1 decreases len(sources) - rangeindex
+
+//@ func resolveEnumBatch
+//@   requires typ != nil && len(destinations) >= len(sources)
+//@   keeps []interface{}, []*outputNode, Enum
+//@   ghost filled map[int]bool
+//@   call unwrap assert arg0 == sources[i]
+//@   call outputNode.Fill assert arg0 == destinations[i]
+//@   call outputNode.Fail assert arg0 == destinations[i]
+//@   call outputNode.Fill ghost filled[i] = true
+//@   ensures err == nil ==> forall k int :: 0 <= k && k < len(sources) ==> filled[k]
+//@   loop 1 invariant -1 <= rangeindex && rangeindex < len(sources)
+//@   loop 1 invariant forall k int :: 0 <= k && k <= rangeindex ==> filled[k]
+//@   loop 1 decreases len(sources) - rangeindex
